@@ -246,7 +246,7 @@ theorem vm_r2o {k o : Nat} (h : Encode.asm a ⟨"r2o", [.reg k, .out o]⟩ = .ok
     k < 2 ^ a.r ∧ o < a.m ∧ ∀ v, vm.regs[k]? = some v → o < vm.outputs.length →
       Isa.exec a plen "r2o" (w.drop a.opBits) vm = some { vm with pc := vm.pc + 1, outputs := vm.outputs.set o v } := by
   obtain ⟨hf, _⟩ := asm_fields h (fs := [.reg, .out]) (show layout "r2o" = some [.reg, .out] from by decide) (show lenientArity "r2o" = false from by decide)
-  have hb := (BMV.Props.C03.asm_rejects_bad_index a _ w h 1 [.reg, .out] (show layout "r2o" = some [.reg, .out] from by decide)).2.2 o (by simp) (by simp [normalise, lenientArity])
+  have hb := (BMV.Props.C03.asm_rejects_bad_index a _ w h 1 [.reg, .out] (show layout "r2o" = some [.reg, .out] from by decide)).2.2.1 o (by simp) (by simp [normalise, lenientArity])
   rw [dec_ro] at hf
   simp only [List.cons.injEq, Operand.reg.injEq, Operand.out.injEq, and_true] at hf
   refine ⟨by rw [← hf.1]; exact field_lt _ _ _, hb, ?_⟩
@@ -270,7 +270,7 @@ theorem fields_ro {op : String} (hop : op = "r2o" ∨ op = "r2owa") {k o : Nat}
     Isa.field (w.drop a.opBits) 0 a.r = k ∧ Isa.field (w.drop a.opBits) a.r a.outBits = o ∧ k < 2 ^ a.r ∧ o < a.m := by
   have hl : layout op = some [.reg, .out] ∧ lenientArity op = false := by rcases hop with rfl | rfl <;> decide
   obtain ⟨hf, _⟩ := asm_fields h (fs := [.reg, .out]) hl.1 hl.2
-  have hb := (BMV.Props.C03.asm_rejects_bad_index a _ w h 1 [.reg, .out] hl.1).2.2 o (by simp) (by simp [normalise, hl.2])
+  have hb := (BMV.Props.C03.asm_rejects_bad_index a _ w h 1 [.reg, .out] hl.1).2.2.1 o (by simp) (by simp [normalise, hl.2])
   rw [dec_ro] at hf
   simp only [List.cons.injEq, Operand.reg.injEq, Operand.out.injEq, and_true] at hf
   exact ⟨hf.1, hf.2, by rw [← hf.1]; exact field_lt _ _ _, hb⟩
